@@ -18,6 +18,7 @@
 #pragma once
 
 
+#include <algorithm>
 #include <unordered_map>
 
 
@@ -84,8 +85,19 @@ template< typename I1, typename I2>
 template< typename C1, typename C2>
    bool hasIntersection( const C1& cont1, const C2& cont2)
 {
-   return hasIntersection( cont1.cbegin(), cont1.cend(), cont2.cbegin(),
-      cont2.cend());
+   // the parallel walk through the two sequences needs sorted data
+   if (std::is_sorted( cont1.cbegin(), cont1.cend())
+       && std::is_sorted( cont2.cbegin(), cont2.cend()))
+      return hasIntersection( cont1.cbegin(), cont1.cend(), cont2.cbegin(),
+         cont2.cend());
+
+   for (auto const& value : cont1)
+   {
+      if (std::find( cont2.cbegin(), cont2.cend(), value) != cont2.cend())
+         return true;
+   } // end for
+
+   return false;
 } // hasIntersection
 
 
